@@ -59,6 +59,14 @@ int snoopy_datasource_env_all (char * const resultBuf, size_t resultBufSize, __a
 {
     int resultSize = 0; // Current size of message to be returned back - does not include trailing null character
 
+    // Start with an empty result (nothing below writes to the buffer if the environment is empty)
+    resultBuf[0] = '\0';
+
+    // The environment pointer itself may be NULL, e.g. after clearenv()
+    if (NULL == environ) {
+        return 0;
+    }
+
     // Loop through all environmental variables
     char *envItem = *environ; // Get first environmental variable
     int i = 0;
